@@ -205,7 +205,7 @@ fn run(ctx: &mut Ctx) {
         if ctx.want_sample() && hist.len() >= 4 && prog.text.len() < 700 { ctx.sample(case()); }
     });
     // phase 1: a real thread clears MCR
-    let n = ctx.tier.pick(24, 2_000);
+    let n = ctx.tier.pick_exact(24, 2_000);
     ctx.cases(1, n, |ctx, rng, _| {
         let text = ".orig x3000\nAND R0, R0, #0\nLOOP ADD R0, R0, #1\nST R0, CELL\nLD R1, CELL\nBR LOOP\nCELL .blkw 1\n.end\n";
         let (Some(mut a), Some(mut b)) = (mk(text, rng.bool(), 7, &[]), mk(text, false, 7, &[])) else { return };
